@@ -60,6 +60,7 @@ type callTarget struct {
 	recv     *Val // receiver for invoke
 	dynamic  bool
 	calleeTerm *Term
+	libIface   bool // invoke on an interface type declared outside the repository
 }
 
 func (f *fx) resolveCall(c *ssa.CallCommon) *callTarget {
@@ -87,6 +88,11 @@ func (f *fx) resolveCall(c *ssa.CallCommon) *callTarget {
 			}
 		}
 		ct.dynamic = true
+		if n, ok := c.Value.Type().(*types.Named); ok {
+			if p := n.Obj().Pkg(); p == nil || !strings.HasPrefix(p.Path(), jetPath) {
+				ct.libIface = true
+			}
+		}
 		return ct
 	}
 	v := f.val(c.Value)
@@ -116,6 +122,12 @@ func (f *fx) resolveCall(c *ssa.CallCommon) *callTarget {
 		if n, ok := c.Value.Type().(*types.Named); ok {
 			ct.key = "type:" + typeKeyString(n)
 			ct.contract = f.e.specs.Contracts[ct.key]
+		}
+	}
+	if ct.contract == nil {
+		k := "dynamic:" + typeKeyString(c.Value.Type())
+		if dc := f.e.specs.Contracts[k]; dc != nil {
+			ct.key, ct.contract = k, dc
 		}
 	}
 	if ct.key == "" {
@@ -181,6 +193,21 @@ func (f *fx) callModKeys(ci ssa.CallInstruction) (keys []string, all bool) {
 		if contract == nil {
 			if n, ok := c.Value.Type().(*types.Named); ok {
 				contract = f.e.specs.Contracts["type:"+typeKeyString(n)]
+			}
+		}
+		if contract == nil {
+			contract = f.e.specs.Contracts["dynamic:"+typeKeyString(c.Value.Type())]
+		}
+	}
+	if contract == nil {
+		if isLibraryFn(fn) {
+			return []string{"E:alloc"}, false
+		}
+		if c.IsInvoke() {
+			if n, ok := c.Value.Type().(*types.Named); ok {
+				if p := n.Obj().Pkg(); p == nil || !strings.HasPrefix(p.Path(), jetPath) {
+					return []string{"E:alloc"}, false
+				}
 			}
 		}
 	}
@@ -260,6 +287,13 @@ func (f *fx) callModKeys(ci ssa.CallInstruction) (keys []string, all bool) {
 			}
 		case "global":
 			keys = append(keys, "G:"+mangle("jet."+m.Ghost))
+		case "mapsof":
+			t := f.e.lookupType(m.Type)
+			if t == nil {
+				unsupp("modifies mapsof %s: unknown type", m.Type)
+			}
+			vk, dk := f.mapKeys(t.Underlying().(*types.Map))
+			keys = append(keys, vk, dk)
 		}
 	}
 	return keys, false
@@ -322,6 +356,10 @@ func (f *fx) doCall(ci ssa.CallInstruction) Val {
 }
 
 func (f *fx) applyCall(ct *callTarget, args []Val, pos token.Pos, resV *ssa.Call) Val {
+	if ct.calleeTerm != nil && !f.noCrash() {
+		f.crash("nil-func-call", T("Bool", "(not (= %s 0))", ct.calleeTerm.S), pos)
+	}
+	f.callSiteSpecs(ct, args, pos)
 	// inline?
 	if ct.fn != nil && len(ct.fn.Blocks) > 0 {
 		if (ct.contract == nil && ct.fn.Parent() != nil) || (ct.contract != nil && ct.contract.Inline) {
@@ -333,6 +371,55 @@ func (f *fx) applyCall(ct *callTarget, args []Val, pos token.Pos, resV *ssa.Call
 	}
 	return f.contractCall(ct, args, pos)
 }
+
+// callSiteSpecs checks the caller's "callsite" clauses for this call.
+func (f *fx) callSiteSpecs(ct *callTarget, args []Val, pos token.Pos) {
+	if f.top.contract == nil || f != f.top && false {
+		return
+	}
+	var specs []*CallSiteSpec
+	for _, cs := range f.top.contract.CallSites {
+		if cs.Callee == ct.key && cs.Clause != nil {
+			specs = append(specs, cs)
+		}
+	}
+	if len(specs) == 0 {
+		return
+	}
+	// ordinal of the static call site (a deferred call is executed on the normal and on the panic path)
+	sk := fmt.Sprintf("callsite:%s@%d", ct.key, pos)
+	n, seen := f.top.counters[sk]
+	if !seen {
+		n = f.ordinal("callsite:" + ct.key)
+		f.top.counters[sk] = n
+	}
+	visit := f.ordinal(sk + "#visit")
+	where, txt := f.srcLine(pos)
+	for i, cs := range specs {
+		if cs.Which >= 0 && cs.Which != n {
+			continue
+		}
+		env := f.callEnv(ct, args, f.cur, f.cur, nil)
+		// caller's own parameters and locals are visible unless shadowed by callee parameter names
+		for k, v := range f.top.topEnv.vars {
+			if _, clash := env.vars[k]; !clash {
+				env.vars[k] = v
+			}
+		}
+		env.old = f.top.entry
+		env.atLoop = true
+		env.f = f
+		env.caller = f.top.topEnv.vars
+		g := f.specBool(cs.Clause, env)
+		name := fmt.Sprintf("callsite:%s#%d/requires%s", ct.key, n, clauseName(cs.Clause, i))
+		if visit > 0 {
+			name += fmt.Sprintf("/path%d", visit)
+		}
+		f.oblige("callsite", name, g, cs.Clause.Props, where, "at this call of "+ct.key+": "+cs.Clause.Src+" | "+txt)
+	}
+}
+
+func (f *fx) noCrash() bool { return f.top.contract != nil && f.top.contract.NoCrash }
 
 func resultTypes(sig *types.Signature) []types.Type {
 	var ts []types.Type
@@ -367,7 +454,42 @@ func (f *fx) freshErrPanicValue() Term {
 	return pv
 }
 
+// libraryCall: default for functions of packages outside the repository that have no contract:
+// they do not touch the interpreter's heap, may panic with an error, and return arbitrary values.
+func (f *fx) libraryCall(ct *callTarget, args []Val, pos token.Pos) Val {
+	f.note(fmt.Sprintf("library function %s has no contract: assumed not to modify any state tracked here, to return arbitrary well-typed values, and possibly to panic with an error", ct.key))
+	exc := f.sc.fresh("exc", "Bool")
+	f.raise(f.sc.define("edge", and(f.curReach, exc)), f.cloneState(f.cur), f.freshErrPanicValue(), "call "+ct.key, pos)
+	f.curReach = f.sc.define("reach", and(f.curReach, not(exc)))
+	post := f.cloneState(f.cur)
+	f.bumpAlloc(post, f.cur)
+	f.cur = post
+	var rs []Val
+	for _, t := range resultTypes(ct.sig) {
+		r := f.sc.fresh("ret", f.e.sorts.sortOf(t))
+		f.assumeTyped(f.cur, r, t)
+		rs = append(rs, termVal(r))
+	}
+	return f.packResults(rs)
+}
+
+func isLibraryFn(fn *ssa.Function) bool {
+	if fn == nil {
+		return false
+	}
+	var pkg *types.Package
+	if fn.Pkg != nil {
+		pkg = fn.Pkg.Pkg
+	} else if fn.Object() != nil {
+		pkg = fn.Object().Pkg()
+	}
+	return pkg != nil && !strings.HasPrefix(pkg.Path(), jetPath)
+}
+
 func (f *fx) unknownCall(ct *callTarget, args []Val, pos token.Pos) Val {
+	if isLibraryFn(ct.fn) || ct.libIface {
+		return f.libraryCall(ct, args, pos)
+	}
 	where, _ := f.srcLine(pos)
 	f.note(fmt.Sprintf("call of %s has no contract: assumed to modify anything, to return arbitrary values and possibly to panic with an error (never to crash)", ct.key))
 	_ = where
@@ -394,6 +516,9 @@ func (f *fx) bumpAlloc(post, pre *State) {
 	n := f.sc.fresh("alloc", "Int")
 	f.sc.assert(T("Bool", "(>= %s %s)", n.S, old.S))
 	f.set(post, "E:alloc", n)
+	if _, ok := f.top.epochAlloc[epochOf(post)]; !ok {
+		f.top.epochAlloc[epochOf(post)] = n
+	}
 }
 
 // paramNames returns the names under which arguments are visible in the contract.
@@ -511,20 +636,24 @@ func (f *fx) applyModifies(ct *callTarget, env *Env, pre *State, tag string) *St
 				unsupp("modifies ghost %s: not declared", m.Ghost)
 			}
 			f.regKey(k, f.e.specSort(g.Type))
-			f.set(post, k, f.sc.fresh(k+tag, keySort(f.e, k)))
+			f.set(post, k, f.freshHeap(k, tag, f.get(post, "E:alloc")))
 		case "type":
 			t := f.e.lookupType(m.Type)
 			if t == nil {
 				unsupp("modifies type %s", m.Type)
 			}
 			k := f.fieldKeyByName(t, m.Field)
-			f.set(post, k, f.sc.fresh(k+tag, keySort(f.e, k)))
+			f.set(post, k, f.freshHeap(k, tag, f.get(post, "E:alloc")))
 		case "point":
 			obj := f.evalSpec(m.Expr, &penv)
 			ref := f.reify(obj.V)
 			k := f.fieldKeyByName(obj.GoT, m.Field)
 			arr := f.get(post, k)
-			f.set(post, k, sto(arr, ref, f.sc.fresh(k+tag, arrayElemSort(arr.Sort))))
+			nv := f.sc.fresh(k+tag, arrayElemSort(arr.Sort))
+			if f.e.keyIsRef[k] {
+				f.sc.assert(T("Bool", "(and (<= 0 %s) (<= %s %s))", nv.S, nv.S, f.get(post, "E:alloc").S))
+			}
+			f.set(post, k, sto(arr, ref, nv))
 		case "elems":
 			obj := f.evalSpec(m.Expr, &penv)
 			s := f.reify(obj.V)
@@ -566,6 +695,15 @@ func (f *fx) applyModifies(ct *callTarget, env *Env, pre *State, tag string) *St
 			k := f.sentKey(ch.Elem())
 			arr := f.get(post, k)
 			f.set(post, k, sto(arr, f.reify(obj.V), f.sc.fresh(k+tag, arrayElemSort(arr.Sort))))
+		case "mapsof":
+			t := f.e.lookupType(m.Type)
+			if t == nil {
+				unsupp("modifies mapsof %s: unknown type", m.Type)
+			}
+			vk, dk := f.mapKeys(t.Underlying().(*types.Map))
+			for _, k := range []string{vk, dk} {
+				f.set(post, k, f.freshHeap(k, tag, f.get(post, "E:alloc")))
+			}
 		case "global":
 			k := "G:" + mangle("jet."+m.Ghost)
 			if _, ok := f.e.keySorts[k]; !ok {
@@ -575,14 +713,22 @@ func (f *fx) applyModifies(ct *callTarget, env *Env, pre *State, tag string) *St
 				}
 				f.regKey(k, f.e.sorts.sortOf(obj.Type()))
 			}
-			f.set(post, k, f.sc.fresh(k+tag, keySort(f.e, k)))
+			f.set(post, k, f.freshHeap(k, tag, f.get(post, "E:alloc")))
 		}
 	}
 	return post
 }
 
+// countCall increments the per-callee dynamic call counter (spec: ncalls("key")).
+func (f *fx) countCall(key string) {
+	k := "E:ncalls:" + key
+	f.regKey(k, "Int")
+	f.set(f.cur, k, T("Int", "(+ %s 1)", f.get(f.cur, k).S))
+}
+
 func (f *fx) contractCall(ct *callTarget, args []Val, pos token.Pos) Val {
 	c := ct.contract
+	f.countCall(ct.key)
 	n := f.ordinal("call:" + ct.key)
 	where, _ := f.srcLine(pos)
 	pre := f.cur
@@ -714,6 +860,14 @@ func (f *fx) inline(ct *callTarget, args []Val, pos token.Pos) Val {
 func (f *fx) deferTarget(d *deferRec) (*callTarget, []Val) {
 	c := &d.instr.Call
 	ct := &callTarget{sig: c.Signature()}
+	// operands are immutable SSA values: evaluate them now
+	d.args = nil
+	for _, a := range c.Args {
+		d.args = append(d.args, f.val(a))
+	}
+	if _, isB := c.Value.(*ssa.Builtin); !isB {
+		d.fnv = f.val(c.Value)
+	}
 	args := d.args
 	if c.IsInvoke() {
 		rv := d.fnv
@@ -945,7 +1099,7 @@ func (f *fx) frameEnabled() bool {
 func (f *fx) frameAllows(key string, ref Term) Term {
 	c := f.top.contract
 	fresh := T("Bool", "(> %s %s)", ref.S, f.top.entryAlloc.S)
-	alts := []Term{fresh}
+	alts := []Term{fresh, T("Bool", "(= %s 0)", ref.S)}
 	env := f.top.topEnv.withState(f.top.entry, f.top.entry)
 	for _, m := range c.Modifies {
 		switch m.Kind {
@@ -1041,6 +1195,12 @@ func (f *fx) checkFrameMap(m Term, pos token.Pos) {
 
 func (f *fx) frameAllowsMap(m Term) Term {
 	c := f.top.contract
+	for _, me := range c.Modifies {
+		if me.Kind == "mapsof" {
+			// NOTE: coarse: any mapsof entry licenses map updates (the map's static type is not tracked here)
+			return tTrue
+		}
+	}
 	alts := []Term{T("Bool", "(> %s %s)", m.S, f.top.entryAlloc.S)}
 	env := f.top.topEnv.withState(f.top.entry, f.top.entry)
 	for _, me := range c.Modifies {
@@ -1148,6 +1308,17 @@ func (f *fx) checkFrameCall(ct *callTarget, env *Env, pos token.Pos) {
 		case "sent":
 			obj := f.evalSpec(m.Expr, &penv)
 			f.checkFrameSent(f.reify(obj.V), pos)
+		case "mapsof":
+			ok := false
+			for _, mm := range f.top.contract.Modifies {
+				if mm.Kind == "mapsof" && mm.Type == m.Type {
+					ok = true
+				}
+			}
+			if !ok {
+				where, txt := f.srcLine(pos)
+				f.oblige("frame", fmt.Sprintf("frame:mapsof:%s#%d", m.Type, f.ordinal("frame:mapsof:"+m.Type)), not(f.curReach), nil, where, "callee modifies every map of type "+m.Type+": "+txt)
+			}
 		case "global":
 			ok := false
 			for _, mm := range f.top.contract.Modifies {
